@@ -1296,9 +1296,10 @@ def show(v):
         if v.is_const:
             return str(v.const)
         out = []
-        for a, c in v.terms:
-            out.append(('-' if c < 0 else '+') + ('' if abs(c) == 1 else f"{abs(c)}*") + show(a))
-        s = ' '.join(out).lstrip('+')
+        for a, c in sorted(v.terms, key=lambda t: -t[1]):
+            out.append(('- ' if c < 0 else '+ ') + ('' if abs(c) == 1 else f"{abs(c)}*") + show(a))
+        s = ' '.join(out)
+        s = s[2:] if s.startswith('+ ') else s
         if v.const:
             s += f" {'+' if v.const > 0 else '-'} {abs(v.const)}"
         return s.strip()
